@@ -5,6 +5,7 @@ import (
 	"bytes"
 	"fmt"
 	"os"
+	"reflect"
 	"regexp"
 	"testing"
 
@@ -301,7 +302,7 @@ func TestGuaranteedInvalidEdits(t *testing.T) {
 		if len(sites) == 0 || len(insertSites) == 0 {
 			return
 		}
-		kind := rapid.SampledFrom([]string{"E1-insert-bracket", "E2-delete-bracket", "E3-truncate-open", "E4-control-byte", "E4-control-byte-at-end"}).Draw(rt, "edit")
+		kind := rapid.SampledFrom([]string{"E1-insert-bracket", "E2-delete-bracket", "E3-truncate-open", "E4-control-byte", "E4-control-byte-at-end", "E5-delete-semicolon"}).Draw(rt, "edit")
 		var edited []byte
 		desc := ""
 		switch kind {
@@ -349,6 +350,58 @@ func TestGuaranteedInvalidEdits(t *testing.T) {
 			at := cuts[rapid.IntRange(0, len(cuts)-1).Draw(rt, "cut")]
 			edited = append([]byte{}, src[:at]...)
 			desc = fmt.Sprintf("truncated at offset %d inside an open bracket", at)
+		case "E5-delete-semicolon":
+			// a deleted mandatory token: the ";" between two expression statements where the first ends
+			// in an operand (variable, number, constant string) and the second starts with one. Two
+			// operands side by side with nothing between them are not an expression in any PHP grammar
+			// (no juxtaposition operator), and nothing else can take two operands in a row
+			operand := func(t *token.Token) bool {
+				if t == nil || t.Position == nil {
+					return false
+				}
+				switch t.ID {
+				case token.T_VARIABLE, token.T_LNUMBER, token.T_DNUMBER, token.T_CONSTANT_ENCAPSED_STRING:
+					return true
+				}
+				return false
+			}
+			var semis []*token.Token
+			astx.Walk(c.Root, func(n ast.Vertex, _ string) bool {
+				for _, ch := range astx.Children(n) {
+					_ = ch
+				}
+				sc := astx.SchemaOf(n)
+				if sc == nil {
+					return true
+				}
+				rv := reflect.ValueOf(n).Elem()
+				for _, f := range sc.Fields {
+					if f.Class != astx.FChildList {
+						continue
+					}
+					list := rv.Field(f.Index).Interface().([]ast.Vertex)
+					for i := 0; i+1 < len(list); i++ {
+						a, ok1 := list[i].(*ast.StmtExpression)
+						b, ok2 := list[i+1].(*ast.StmtExpression)
+						if !ok1 || !ok2 || a.SemiColonTkn == nil || string(a.SemiColonTkn.Value) != ";" || inStr[a.SemiColonTkn] {
+							continue
+						}
+						at, bt := astx.Tokens(a.Expr), astx.Tokens(b)
+						if len(at) == 0 || len(bt) == 0 || !operand(at[len(at)-1]) || !operand(bt[0]) || inStr[at[len(at)-1]] || inStr[bt[0]] {
+							continue
+						}
+						semis = append(semis, a.SemiColonTkn)
+					}
+				}
+				return true
+			})
+			if len(semis) == 0 {
+				return
+			}
+			sc := semis[rapid.IntRange(0, len(semis)-1).Draw(rt, "semicolon")]
+			p := sc.Position
+			edited = append(append(append([]byte{}, src[:p.StartPos]...), ' '), src[p.EndPos:]...)
+			desc = fmt.Sprintf("deleted the ';' at offset %d between two expression statements (operand next to operand)", p.StartPos)
 		case "E4-control-byte-at-end":
 			// only when the file ends in PHP mode (not after a close tag / inline HTML / __halt_compiler data)
 			last := toks[sites[len(sites)-1]]
